@@ -21,11 +21,21 @@ theorem verdict : (classify Generated.factsC07).Sound (Holds (cfgOf Generated.fa
 #print axioms refutes_current
 #print axioms findings_current
 #print axioms findings_beforeFix
+#print axioms witness_first_readers_race
+#print axioms holdsRace_of
+#print axioms refutes_of_race
 #print axioms holds_current_nonvalue
 #print axioms witness_updated_stale
 #print axioms witness_created_stale
 #print axioms witness_value_update_stale
 #print axioms witness_value_insert_wrong_comparator
 #print axioms witness_value_mixed_types
+#print axioms shift_correct
+#print axioms value_single_type
+#print axioms holds_current_single_type
+#print axioms shift_partial
+#print axioms witness_expire_cleared_refiled
+#print axioms witness_patch_expired_partial_reindex
+#print axioms Hv.Beacon.slotInv_stepPatchExpired
 
 end Hv.C07
